@@ -261,6 +261,13 @@ def run(rep, tier, seed):
                    ('(tag e c 0 (str 23))', '(s 3137303830313132303131325a)'),
                    ('(seq (r (tag e c 0 (str 23))) (r int))', '(seq (s 3137303830313132303131325a) (i 5))'),
                    ('(set (r (tag e a 1 (str 24))) (r (tag i c 2 (str 24))))', '(seq (s 32303137303830313132303131325a) (s 32303137303830313132303131325a))'),
+                   # elements whose identifier and length octets look like an end-of-octets marker but for the class bits:
+                   # empty primitive values under tag number 0 of a non-universal class, inside indefinite-length containers
+                   ('(seq (r int) (o (tag i c 0 (str 4))))', '(seq (i 5) (s -))'),
+                   ('(seq (r (tag i a 0 null)) (r int))', '(seq null (i 5))'),
+                   ('(seqof (tag i p 0 (str 4)))', '(of (s -) (s 61) (s -))'),
+                   ('(set (r (tag i c 0 (str 12))) (r bool))', '(seq (s -) (b 1))'),
+                   ('(tag e c 5 (tag i c 0 (str 4)))', '(s -)'),
                    ('(choice (r (seqof int)) (r int))', '(ch 0 (of))'),
                    ('(choice (r (tag i c 3 (seq (o int)))) (r bool))', '(ch 0 (seq absent))'),
                    ('(choice (r (setof bool)) (r (tag e c 1 (seqof int))))', '(ch 0 (of))'),
